@@ -1064,7 +1064,7 @@ impl<'c> Gen<'c> {
         let after = lambda(&[], Body::single(app("display", vec![string(&format!("{}>", tag))])));
         let n = self.c.range(1, 3);
         let step = self.c.range(1, 9);
-        let pick = if self.opts.winds { self.c.below(11) } else { [0usize, 1, 6, 8, 9][self.c.below(5)] };
+        let pick = if self.opts.winds { self.c.below(12) } else { [0usize, 1, 6, 8, 9][self.c.below(5)] };
         match pick {
             0 => {
                 // generator: the continuation of a let binding is re-entered n times
@@ -1334,6 +1334,39 @@ impl<'c> Gen<'c> {
                         ))),
                     ))),
                 )
+            }
+            11 if self.opts.handlers && self.opts.errors => {
+                // the body of a dynamic-wind is left through a raised error and the after thunk itself does
+                // control work: it escapes through a continuation captured outside (the handler never runs and
+                // the after thunk runs once), or only records (then the handler runs after it)
+                self.feat("dynamic-wind");
+                self.feat("with-handler");
+                self.feat("error-through-wind");
+                self.feat("after-thunk-escapes");
+                let r = self.raising();
+                let escapes = self.c.chance(2, 3);
+                let nested = self.c.chance(1, 2);
+                let after_body = if escapes {
+                    vec![app("display", vec![string(&format!("{}>", tag))]), call(var("out"), vec![int(step)])]
+                } else {
+                    vec![app("display", vec![string(&format!("{}>", tag))])]
+                };
+                let mut inner = Expr::DynamicWind(
+                    Box::new(before),
+                    Box::new(lambda(&[], Body { defs: vec![], exprs: vec![app("display", vec![string("body")]), r, int(0)] })),
+                    Box::new(lambda(&[], Body { defs: vec![], exprs: after_body })),
+                );
+                if nested {
+                    inner = Expr::DynamicWind(
+                        Box::new(lambda(&[], Body::single(app("display", vec![string("<o")])))),
+                        Box::new(lambda(&[], Body::single(inner))),
+                        Box::new(lambda(&[], Body::single(app("display", vec![string("o>")])))),
+                    );
+                }
+                Expr::CallCC(Box::new(lambda(
+                    &["out"],
+                    Body::single(Expr::WithHandler(Box::new(lambda(&["e"], Body { defs: vec![], exprs: vec![app("display", vec![string("H")]), int(-step)] })), Box::new(inner))),
+                )))
             }
             _ => {
                 // escape from a deep non-tail recursion
